@@ -16,6 +16,26 @@ COMMON_NOTE = ("Trusted base: Lean 4.33 kernel (thorough tier re-checks with lea
                "pytz internals are modelled by explicit contracts, not verified (DESIGN §9).")
 
 CHECKS = {
+    "C01": dict(
+        technique="Lean 4 abstract recomputation theory + verified chain checker evaluated on exported real graphs (K-graph) + edit-vs-rebuild oracle",
+        text=("Proved in Lean for any node/value type: a chain that is duplicate-free, closed under 'reads something edited "
+              "or recomputed' and ordered after its reads turns a consistent state into a consistent state "
+              "(incr_consistent); consistent states are unique given the inputs; hence any finite history of accepted "
+              "edits equals the from-scratch state, undo restores. chainOk is an executable checker proved sound "
+              "(chainOk_sound); every run evaluates it, and the literal Lean port of attr_updates_chain, on the graphs "
+              "and chains exported from the real code (must match exactly). NOT proved: that the code's algorithm "
+              "always yields an accepted chain (per-graph checking stands in), and link edits (object-level chain) are "
+              "covered by the oracle only. Known findings D2, D3, D13 delimit the guarded domain and are replayed."),
+        design="§7 C01"),
+    "C18": dict(
+        technique="Lean 4 fixed-point theorems + table obligation order_respects_reads (decide over tables regenerated from /repo)",
+        text=("Proved in Lean: in a consistent state any sequence of recomputation requests changes nothing; a full pass in "
+              "an order respecting the reads yields a consistent state; nodes outside a chain are never written. The "
+              "obligation order_respects_reads is re-proved by decide on every run over CANONICAL_COMPUTATION_ORDER, "
+              "calculated_attributes orders and the class-level dependencies recorded by the real code, all regenerated "
+              "from /repo: a reorder in the code breaks the proof. Oracle: extra recomputations in random order, "
+              "explain, export, aggregates leave calculated values and input physical values unchanged."),
+        design="§7 C18"),
     "C02": dict(
         technique="Lean 4 theorems on Model B aggregation (dedup, sumVals, rounding, energy×intensity) + K-calc correspondence",
         text=("Proved in Lean for all inputs: the collections the system sums over contain every reachable component "
